@@ -299,8 +299,7 @@ func (m *mountFS) GetDiskUsage(path string) (vfs.DiskUsage, error) {
 	return fs.GetDiskUsage(p)
 }
 
-func (m *mountFS) PathBase(p string) string            { return path.Base(p) }
-func (m *mountFS) PathJoin(elem ...string) string      { return path.Join(elem...) }
-func (m *mountFS) PathDir(p string) string             { return path.Dir(p) }
-func (m *mountFS) Unwrap() vfs.FS                      { return nil }
-
+func (m *mountFS) PathBase(p string) string       { return path.Base(p) }
+func (m *mountFS) PathJoin(elem ...string) string { return path.Join(elem...) }
+func (m *mountFS) PathDir(p string) string        { return path.Dir(p) }
+func (m *mountFS) Unwrap() vfs.FS                 { return nil }
